@@ -1,6 +1,8 @@
 use phf_codegen::Map;
 
 fn main() {
+    // declare the verification-hook cfg so that builds without it do not warn
+    println!("cargo:rustc-check-cfg=cfg(bacon_verif)");
     let mut map = Map::new();
     let data = include_str!("./codata.txt");
     // based off of parse_constants_2018toXXXX from scipy.constants.codata
